@@ -619,25 +619,34 @@ func newFileStore(path string, autoFlushCache bool) (*fileStore, error) {
 	}
 	verifStoreOpened(fs, path, autoFlushCache)
 	if autoFlushCache {
-		fs.tickerDone = make(chan bool)
-		fs.ticker = time.NewTicker(pageFlushInterval)
-		verifTicker(fs)
-		go func() {
-			for {
-				select {
-				case <-fs.tickerDone:
-					return
-				case <-fs.ticker.C:
-					verifFlusher(fs, verifFlusherWake)
-					if err := fs.flushPages(); err != nil {
-						fmt.Printf("error flushing pages: %s", err.Error())
-					}
-					verifFlusher(fs, verifFlusherDone)
-				}
-			}
-		}()
+		fs.startFlusher()
 	}
 	return fs, nil
+}
+
+// startFlusher starts the goroutine that writes dirty pages and the header to
+// the file periodically. The header fields must be valid by then: a store
+// that exists on disk is opened first, otherwise a tick that comes early
+// writes an all-zero header over the real one.
+func (fs *fileStore) startFlusher() {
+	fs.autoFlushCache = true
+	fs.tickerDone = make(chan bool)
+	fs.ticker = time.NewTicker(pageFlushInterval)
+	verifTicker(fs)
+	go func() {
+		for {
+			select {
+			case <-fs.tickerDone:
+				return
+			case <-fs.ticker.C:
+				verifFlusher(fs, verifFlusherWake)
+				if err := fs.flushPages(); err != nil {
+					fmt.Printf("error flushing pages: %s", err.Error())
+				}
+				verifFlusher(fs, verifFlusherDone)
+			}
+		}
+	}()
 }
 
 type fileStore struct {
